@@ -6,7 +6,7 @@ LEVEL = "model_checking"
 META = {"explanation": "the real io.c linked with contract stubs for stdio and libpng (stubs/*.c, the assumed contracts are written out there); dimensions enumerated, token streams / header fields / contents symbolic",
         "assumptions": ["libpng and stdio are replaced by the assumed contracts in stubs/png_stub.c and stubs/stdio_stub.c (row data passes through libpng unchanged apart from packswap/invert; errors are return values, no longjmp)",
                         "malformed *file bytes* (truncation, CRC) are libpng's domain and not modelled: only the header fields libpng reports are arbitrary"]}
-TUS = ["mzd", "mmc", "misc", "graycode", "io", "echelonform", "brilliantrussian", "strassen", "mzp", "ple", "ple_russian", "triangular", "triangular_russian", "djb", "debug_dump", "mp", "solve", "@libm",
+TUS = ["mzd", "mmc", "misc", "graycode", "io|-include|/verif/stubs/io_redirect.h", "echelonform", "brilliantrussian", "strassen", "mzp", "ple", "ple_russian", "triangular", "triangular_russian", "djb", "debug_dump", "mp", "solve", "@libm",
        "/verif/stubs/png_stub.c", "/verif/stubs/stdio_stub.c"]
 P = ["C18", "C11"]
 
